@@ -209,6 +209,18 @@ def directions(draw, interior_only=False):
     return [a, b, 1 - a - b]
 
 
+def as_given(draw, values):
+    """Input files and callers often write 0 and 1 as integers: pass exact
+    0.0 / 1.0 values as int now and then."""
+    out = []
+    for v in values:
+        if v in (0.0, 1.0) and draw(st.booleans()):
+            out.append(int(v))
+        else:
+            out.append(float(v))
+    return out
+
+
 def random_bsf(rng, n, p):
     """i.i.d. depolarising-style error drawn with the harness generator."""
     u = rng.random(n)
